@@ -70,6 +70,31 @@ CHECKS['C03'] = (
     'not reported.',
     'DESIGN.md 3/C03')
 
+CHECKS['C04'] = (
+    'deviation-bounded enumeration of amplifier operating points over every single-band model of the shipped libraries, real '
+    'Edfa.__call__, independent re-implementation of the clamp, h f B NF and the documented NF models',
+    'For every non-multiband amplifier model of example-data/eqpt_config.json and the vendored test library, every operating '
+    'point within 3 (quick) / 4 (thorough) deviations over gain (below gain_min .. above flatmax), tilt, input/output VOA, comb '
+    '(1..95 channels, 50/75/100 GHz grids, mixed), input level (-35..+5 dBm/ch, saturating), power shape, input noise and '
+    'out-of-band / band-straddling channels is driven through the real Edfa.__call__; effective gain == min(set gain, p_max - '
+    'Pin), total gain, added ASE == h f B NF(model) per channel, channel set == in-band channels; NF-vs-gain sweeps check end '
+    'points, monotonicity and the dB-for-dB rule below gain_min.',
+    'NF models are re-implemented from the documentation and library documents; OpenROADM NF is judged on uniform grids only; '
+    'with tilt/ripple the total gain is compared within 0.02 dB (the code solves the tilted profile in one step).',
+    'DESIGN.md 3/C04')
+CHECKS['C05'] = (
+    'complete product over single-fibre configurations, every order of span lists on designed paths, deviation-bounded '
+    'enumeration of Raman solver settings; oracles computed from the input documents',
+    '(a) all 1920 combinations of length, loss (scalar / per-frequency table in ascending, descending, 2-point form), lumped '
+    'losses, pad, connectors and comb: attenuation == loss budget (1e-9 dB), CD = D L, latency = L n/c, PMD = coef sqrt(L). '
+    '(b) 10 span-set x amplifier-sequence combinations, every permutation of the span list, designed and propagated: totals == '
+    'sums (CD, latency) / root-sum-squares (PMD, PDL incl. amplifiers and ROADMs) from the documents and identical over orders. '
+    '(c) Raman solver settings within 2 (quick) / 4 (thorough) deviations: low-power limit == loss budget, perturbative vs '
+    'numerical within the explicit-Euler bias bound, lumped losses once, counter-propagating pumps only add gain.',
+    'Solver step <= 2 km (coarser steps make the numerical method itself inaccurate); tolerances for Raman comparisons are the '
+    'analytic discretisation bounds stated in the check source.',
+    'DESIGN.md 3/C05')
+
 ALL = [f'C{i:02d}' for i in range(1, 21)]
 NOT_BUILT_REASON = 'check not built yet in this round (planned, see DESIGN.md section 3); not claimed until it runs'
 
